@@ -21,6 +21,11 @@
 // location and a failing record allocation in allocMemory; kind B every form of operator new / delete (plain, debug with
 // size_t and int line, nothrow, sized, placement) and cpputest_realloc_location.
 //
+// Extension (seeded change C06-s6): the recording allocators can CHOOSE the address of what they hand out: second decoded
+// choice = number of hash residues (0 = natural addresses, else 1..3 residues modulo 73 starting at a decoded one), so that the
+// detector's hash chains hold several outstanding blocks as a rule and blocks are released from the head, the middle and the
+// tail of a chain.  The block is placed inside a larger libc block; the slack before and after it is poisoned for ASan.
+//
 // The recording allocators only RECORD releases (real free happens at the end of the case), so stale addresses stay
 // non-outstanding for the whole case and nothing is freed twice whatever the detector does after reporting.
 #include <map>
@@ -30,6 +35,17 @@
 #include "common.h"        // (std headers first: common.h brings in the `new` macro)
 #include "CppUTest/TestHarness_c.h"
 #include <new>
+#if defined(__has_feature)
+#if __has_feature(address_sanitizer)
+#include <sanitizer/asan_interface.h>
+#define VERIF_POISON(a, n) ASAN_POISON_MEMORY_REGION(a, n)
+#define VERIF_UNPOISON(a, n) ASAN_UNPOISON_MEMORY_REGION(a, n)
+#endif
+#endif
+#ifndef VERIF_POISON
+#define VERIF_POISON(a, n) ((void)(a), (void)(n))
+#define VERIF_UNPOISON(a, n) ((void)(a), (void)(n))
+#endif
 #undef new
 #undef malloc
 #undef free
@@ -43,7 +59,9 @@ namespace {
 // recording allocators: fixed tables, libc malloc only (they run inside the ON window: no operator new in here)
 // ---------------------------------------------------------------------------------------------------------------
 enum { ENT_MAX = 2048, EV_MAX = 512 };
-struct Ent { char* p; size_t req; bool freed; };
+struct Ent { char* p; size_t req; bool freed; char* raw; size_t raw_size; };
+enum { HASH_PRIME = 73 };          // MEMORY_LEAK_HASH_TABLE_SIZE
+int g_res_n, g_res_base; unsigned g_res_counter;     // address choice: 0 = natural, else the next block goes to residue (base + counter % n) % 73
 struct FreeEv { char* p; size_t handed; size_t req; size_t cd_prefix; };
 Ent g_ent[ENT_MAX]; int g_nent;
 FreeEv g_fev[EV_MAX]; int g_nfev;
@@ -52,8 +70,28 @@ bool g_fail_record_alloc;        // one-shot fault: the next allocation of a sep
 bool g_realloc_fail, g_realloc_inplace;     // PlatformSpecificRealloc seam: fail / keep the address when the block is large enough
 void* (*g_saved_platform_realloc)(void*, size_t);
 
+// a block of `size` bytes whose address has the chosen residue modulo 73 (the detector's hash); registered in the table
+char* rec_new_block(size_t size) {
+    size_t n = size ? size : 1;
+    char* raw; char* p; size_t raw_size;
+    if (g_res_n == 0) { raw_size = n; raw = (char*)::malloc(raw_size); p = raw; }
+    else {
+        raw_size = n + 16 * (HASH_PRIME - 1);
+        raw = (char*)::malloc(raw_size);
+        unsigned want = (unsigned)(g_res_base + (int)(g_res_counter++ % (unsigned)g_res_n)) % HASH_PRIME;
+        size_t j = 0;
+        while ((size_t)(raw + 16 * j) % HASH_PRIME != want) j++;      // 16 and 73 are coprime: some j in 0..72 fits
+        p = raw + 16 * j;
+        VERIF_POISON(raw, 16 * j); VERIF_POISON(p + n, raw_size - 16 * j - n);
+    }
+    memset(p, 0x5A, n);
+    if (g_nent < ENT_MAX) { Ent& e = g_ent[g_nent++]; e.p = p; e.req = size; e.freed = false; e.raw = raw; e.raw_size = raw_size; }
+    else g_overflow = true;     // cannot happen within the decoder's bounds; the block is then simply leaked
+    return p;
+}
 void rec_reset() {
-    for (int i = 0; i < g_nent; i++) ::free(g_ent[i].p);
+    for (int i = 0; i < g_nent; i++) { VERIF_UNPOISON(g_ent[i].raw, g_ent[i].raw_size); ::free(g_ent[i].raw); }
+    g_res_n = 0; g_res_base = 0; g_res_counter = 0;
     g_nent = 0; g_nfev = 0; g_bogus_free = 0; g_bogus_ptr = nullptr; g_overflow = false;
     g_fail_record_alloc = false; g_realloc_fail = false; g_realloc_inplace = false;
 }
@@ -66,11 +104,8 @@ void* rec_realloc(void* memory, size_t size) {
         if (at < 0) { g_bogus_free++; g_bogus_ptr = (char*)memory; return NULLPTR; }
         if (g_realloc_inplace && size <= g_ent[at].req) { g_ent[at].req = size; return memory; }   // shrinking in place; req only ever shrinks, so it stays a valid bound
     }
-    char* q = (char*)::malloc(size ? size : 1);
-    memset(q, 0x5A, size ? size : 1);
+    char* q = rec_new_block(size);
     if (at >= 0) { size_t keep = g_ent[at].req < size ? g_ent[at].req : size; memcpy(q, memory, keep); g_ent[at].freed = true; }   // the old memory stays allocated until the end of the case
-    if (g_nent < ENT_MAX) { g_ent[g_nent].p = q; g_ent[g_nent].req = size; g_ent[g_nent].freed = false; g_nent++; }
-    else g_overflow = true;
     return q;
 }
 
@@ -78,11 +113,7 @@ struct Rec : TestMemoryAllocator {
     Rec(const char* n, const char* a, const char* f) : TestMemoryAllocator(n, a, f) {}
     char* alloc_memory(size_t size, const char* file, size_t) CPPUTEST_OVERRIDE {
         if (g_fail_record_alloc && file && strcmp(file, "MemoryLeakNode") == 0) { g_fail_record_alloc = false; return NULLPTR; }
-        char* p = (char*)::malloc(size ? size : 1);
-        memset(p, 0x5A, size ? size : 1);
-        if (g_nent < ENT_MAX) { g_ent[g_nent].p = p; g_ent[g_nent].req = size; g_ent[g_nent].freed = false; g_nent++; }
-        else g_overflow = true;     // cannot happen within the decoder's bounds; the block is then simply leaked
-        return p;
+        return rec_new_block(size);
     }
     void free_memory(char* memory, size_t size, const char*, size_t) CPPUTEST_OVERRIDE {
         if (memory == NULLPTR) return;
@@ -640,7 +671,10 @@ extern "C" int verif_case(const uint8_t* data, size_t size) {
     rec_reset();
     bool nontrivial = false; std::string desc;
     int rc;
-    if (r.below(4) <= 2) { desc = "[local detector] "; rc = run_local(r, nontrivial, desc); }
+    uint32_t kind_of_case = r.below(4);
+    g_res_n = (int)r.below(4); g_res_base = g_res_n ? (int)r.below(HASH_PRIME) : 0;     // after rec_reset(): address choice of this case
+    verif::cls(g_res_n == 0 ? "addresses:natural" : g_res_n == 1 ? "addresses:one-hash-chain" : g_res_n == 2 ? "addresses:two-hash-chains" : "addresses:three-hash-chains");
+    if (kind_of_case <= 2) { desc = sfmt("[local detector%s] ", g_res_n ? sfmt(", %d hash chain(s)", g_res_n).c_str() : ""); rc = run_local(r, nontrivial, desc); }
     else { desc = "[global entry points] "; rc = run_global(r, nontrivial, desc); }
     rec_reset();
     verif::note_case(nontrivial, r.h, [&] { return desc; });
